@@ -43,8 +43,8 @@ def presChange (c cs tag : Nat) : ChangeReq :=
 def opsChange (c cs : Nat) (lam : Int) (tag : Nat) : ChangeReq :=
   { clientSeq := cs, lamport := lam, vv := [(c, lam)], actor := c, hasOps := true, hasPresence := false, tag := tag }
 
-def pinned : Config := { detachGuardFirst := false }
-def fixed : Config := { detachGuardFirst := true }
+def pinned : Config := { detachGuardFirst := false, pushAfterRemoveDiscards := false }
+def fixed : Config := { detachGuardFirst := true, pushAfterRemoveDiscards := false }
 
 /-- A attaches, syncs, detaches; B is attached (corpus/C11/proto-detached-push.trace) -/
 def afterDetach (cfg : Config) : Server := run (Server.init cfg) [
